@@ -1,4 +1,5 @@
 """S-ENC / S-LEN summaries of built-in impls and their comparison (C07, C03, C01)."""
+import re
 from ..absint import Int, Adt, Abort, State
 from .. import l1, l2, mir
 from ..prims import RESULT, norm_adt
@@ -101,7 +102,10 @@ def compare_len_enc(ctx, rule, label, prog, enc_path, len_path, leaf_crates=(), 
                     continue
                 ctx.violation(rule, label + '|mismatch|' + key.split('|', 1)[1], 'on {%s}: cbor_len = %r but encode writes %r bytes (items %s)' % (key.split('|', 1)[1], lo.value, total, items[:8]), where)
                 continue
-            bad = [k for k in sums_l if k in sums_e and sums_l[k] != sums_e[k]]
+            def nostar(v):
+                # `elem(x)` and `elem(x)*` (the element / the element behind a reference) have the same length
+                return Int([(re.sub(r'\*+(?=\))', '', s_), k_) for s_, k_ in v.terms], v.c) if isinstance(v, Int) else v
+            bad = [k for k in sums_l if k in sums_e and nostar(sums_l[k]) != nostar(sums_e[k])]
             if bad:
                 ctx.violation(rule, label + '|element', 'per-element length %r differs from per-element encoding %r' % (sums_l[bad[0]], sums_e[bad[0]]), where)
                 continue
